@@ -25,6 +25,7 @@ ASSUMPTIONS = [
     "siblings of the failing callback inside its group may or may not have run (sync: those scheduled before it; async: all of them)",
     "in async fault runs callbacks that send nested events do not yield, so a sibling of the failing callback cannot enqueue after the queue was cleared",
     "failures injected into initial activation inside the constructor are checked for exception identity only (no machine object results)",
+    "StopIteration is only injected into machines without coroutine callbacks (inside a coroutine Python turns it into RuntimeError, PEP 479)",
     "reference interpreter trusted",
 ]
 BUDGET_IS_TOTAL = True
